@@ -126,6 +126,13 @@ def run(REG, tier, seed, jobs):
     ev, nt, fails = pmap(_lex_chunk, chunked(strings(alpha, n), 20000), jobs)
     parts.append({'name': 'C02/bounded/lexer-tiling-and-positions', 'function': 'Lexer.lex', 'bound': f'all texts of <= {n} symbols over {alpha!r}',
                   'evaluations': ev, 'distinct_nontrivial': nt, 'rule': 'non-trivial: accepted with at least two tokens', 'exhaustive': True, 'failures': fails})
+    lits = ['0', '00', '007', '01', '09', '0644', '010', '0x1F', '0X1f', '0xg', '0x', '0b101', '0B1', '0b2', '0b', '0o17', '0O7', '0o8', '0o', '1_000', '12ab', '1.5', '.5', '1e3', '-0', '0-', '10', '9', '0a',
+            "'a'", "'a\\'", "'\\x41'", "'\\N{DIGIT ONE}'", "'\\101'", "'\\8'", "'''a''''", "''''a'''", "f'@0@'", "f'@a'", "'@a@'", "'a' 'b'", "'a''b'", 'true', 'false', 'True', 'not', 'in']
+    ctx = ['x = {}', 'f({})', '[{}, {}]', "{{'k': {}}}", 'if v == {}\nendif', 'x = {} + {}', 'f(k: {})', 'x = a[{}]', 'x = {}.m()']
+    ltexts = [c.replace('{}', l).replace('{{', '{').replace('}}', '}') + '\n' for c in ctx for l in lits]
+    ev, nt, fails = pmap(_parse_chunk, chunked(iter(ltexts), 50), jobs)
+    parts.append({'name': 'C02/bounded/literal-forms', 'function': 'Parser.parse / RawPrinter', 'bound': f'{len(ltexts)} texts: {len(lits)} number / string / keyword literal spellings (leading zeros, every base prefix with and without digits, near misses, escapes, adjacent strings) in {len(ctx)} contexts: accepted and printed back byte for byte, or rejected with a located syntax error — nothing else escapes',
+                  'evaluations': ev, 'distinct_nontrivial': nt, 'rule': 'non-trivial: accepted', 'exhaustive': True, 'failures': fails})
     k = 3 if tier == 'quick' else 4
     gen = (''.join(t) for j in range(k + 1) for t in itertools.product(TOKENS, repeat=j))
     extra = (''.join(rnd.choice(TOKENS) for _ in range(rnd.randint(4, 12))) for _ in range(40000 if tier == 'quick' else 400000))
@@ -180,6 +187,7 @@ def run(REG, tier, seed, jobs):
 
 
 CHECKS = {
+    'C02/bounded/literal-forms': (_parse_chunk, lambda c: c['text']),
     'C02/bounded/lexer-tiling-and-positions': (_lex_chunk, lambda c: c['text']),
     'C02/bounded/lexer-positions-on-token-strings': (_lex_chunk, lambda c: c['text']),
     'C02/bounded/parse-print-roundtrip-and-extents': (_parse_chunk, lambda c: c['text']),
